@@ -109,8 +109,10 @@ class PaneBase:
         if opts.frozen:
             raise FrozenInstanceError(f"cannot assign to field {name!r}")
         super().__setattr__(name, value)
-        set_fields: t.Set[str] = getattr(self, PANE_SET_FIELDS)
-        set_fields.add(name)
+        if any(field.name == name for field in self.__pane_info__.fields):
+            # only fields enter the record of set fields
+            set_fields: t.Set[str] = getattr(self, PANE_SET_FIELDS)
+            set_fields.add(name)
 
     def __delattr__(self, name: str) -> None:
         raise AttributeError(f"cannot delete field {name!r}")
